@@ -7,7 +7,11 @@ CONSTANTS
   EofWithData = TRUE
   ShapesA <- LocalShapes
   ShapesB <- AllShapes
-  DevDrainDeadline = TRUE
+  DevDeadlineAt = "halfclose"
+  DevDeadlineHits = {"read"}
+  Monitor = FALSE
+  IdleMax = 2
+  DevMonNoFeed = FALSE
   DevCloseWriterFallback = FALSE
   Emit = FALSE
   Classes = {1}
@@ -28,6 +32,7 @@ CONSTANTS
   DevNoInnerFlush = FALSE
   SockQueue = FALSE
   DevQueueRefs = FALSE
+  DevSockDeadline = FALSE
   DevDropOnClose = FALSE
 INIT BInit
 NEXT BNext
